@@ -221,7 +221,19 @@ fn pou_vars_and_body(rng: &mut Rng, n: &Names, is_function: bool, own: &str) -> 
     let a = rng.pick(&locals).clone();
     let b = rng.pick(&locals).clone();
     body.push_str(trivia(rng, n));
-    match rng.below(6) {
+    match rng.below(10) {
+        6 => body.push_str(&format!("  CASE {a} OF\n    1: {b} := 1;\n    2, 3: {b} := 2;\n  ELSE\n    {b} := 0;\n  END_CASE;\n")),
+        7 => body.push_str(&format!("  FOR {a} := 1 TO 10 BY 2 DO\n    {b} := {b} + {a};\n  END_FOR;\n")),
+        8 => body.push_str(&format!("  WHILE {a} < 10 DO\n    {a} := {a} + 1;\n  END_WHILE;\n  REPEAT\n    {b} := {b} - 1;\n  UNTIL {b} < 0 END_REPEAT;\n")),
+        9 if !n.functions.is_empty() => {
+            let f = rng.pick(&n.functions).clone();
+            if rng.chance(1, 2) {
+                body.push_str(&format!("  {a} := {}(a := 1, b := {b});\n", respell(rng, &f)));
+            } else {
+                body.push_str(&format!("  {a} := {f}({b}, 2);\n"));
+            }
+        }
+        9 => body.push_str(&format!("  {a} := {b} - 1;\n")),
         4 => body.push_str(&format!("  {a} := ({b} MOD 3) + {};\n", rng.below(9))),
         5 => body.push_str(&format!("  IF ({a} > 3) AND NOT ({b} > 2) OR ({a} = 1) XOR ({b} = 2) THEN\n    {a} := 0;\n  END_IF;\n")),
         3 => body.push_str(&format!("  IF {a} > 3 THEN\n    {b} := 0;\n  END_IF {b} := {b} + 1;{}\n", if n.no_comments { "" } else { " (* same line *)" })),
@@ -280,6 +292,9 @@ fn gen_program(rng: &mut Rng, n: &mut Names) -> Decl {
     let k = n.fresh();
     let name = format!("Pr{k}");
     let mut text = format!("PROGRAM {name}\n");
+    if rng.chance(1, 4) {
+        text.push_str(&format!("  VAR\n    din AT %IX{}.{} : BOOL;\n    aout AT %QW{} : INT;\n  END_VAR\n  VAR RETAIN\n    kept : INT;\n  END_VAR\n", rng.below(4), rng.below(8), rng.below(9)));
+    }
     let (vars, body) = pou_vars_and_body(rng, n, false, &name);
     text.push_str(&vars);
     text.push_str(&body);
@@ -377,6 +392,10 @@ pub const FAULT_KINDS: &[&str] = &[
     "invoke_undeclared_instance",
     "task_in_other_config",
     "unsupported_stdlib_type",
+    "fb_call_unknown_input",
+    "fb_call_mixed",
+    "fb_call_too_few",
+    "fb_call_unknown_output",
 ];
 
 /// Fault kinds whose faulty declaration(s) fail on their own (no other declaration needed).
@@ -578,6 +597,24 @@ pub fn gen_faulty(rng: &mut Rng, size: usize, kind: &str) -> World {
         "unsupported_stdlib_type" => {
             let std = *rng.pick(&["TON", "TOF", "TP", "CTU", "SR", "R_TRIG"]);
             push(&mut decls, decl("fault", &format!("Fb{k}"), format!("FUNCTION_BLOCK Fb{k}\n  VAR\n    t : {std};\n    cnt : INT;\n  END_VAR\n  cnt := 1;\nEND_FUNCTION_BLOCK\n")));
+        }
+        "fb_call_unknown_input" | "fb_call_mixed" | "fb_call_too_few" | "fb_call_unknown_output" => {
+            // a callee with two inputs and an output, and a caller whose invocation is wrong
+            let k2 = n.fresh();
+            push(
+                &mut decls,
+                decl("fb", &format!("Callee{k}"), format!("FUNCTION_BLOCK Callee{k}\n  VAR_INPUT\n    in1 : BOOL;\n    in2 : BOOL;\n  END_VAR\n  VAR_OUTPUT\n    out1 : BOOL;\n  END_VAR\n  out1 := in1 AND in2;\nEND_FUNCTION_BLOCK\n")),
+            );
+            let call = match kind {
+                "fb_call_unknown_input" => "inst(in1 := TRUE, nosuch := TRUE);",
+                "fb_call_mixed" => "inst(in1 := TRUE, FALSE);",
+                "fb_call_too_few" => "inst(TRUE);",
+                _ => "inst(nosuchout => l);",
+            };
+            push(
+                &mut decls,
+                decl("fault", &format!("Caller{k2}"), format!("FUNCTION_BLOCK Caller{k2}\n  VAR\n    inst : Callee{k};\n    l : BOOL;\n  END_VAR\n  inst(in1 := TRUE, in2 := FALSE, out1 => l);\n  {call}\nEND_FUNCTION_BLOCK\n")),
+            );
         }
         "alias_unknown" => push(&mut decls, decl("fault", &format!("Al{k}"), format!("TYPE\n  Al{k} : NoSuchType{k};\nEND_TYPE\n"))),
         other => panic!("unknown fault kind {other}"),
